@@ -46,7 +46,8 @@ LEVEL_NOTE = (
     "No proof of absence beyond the generated trees."
 )
 RULE = (
-    "hypothesis trees over <=4 distinct leaves drawn from category/package/version/slot/USE/repo leaves "
+    "bounded-exhaustive catalogue of P(X(a,b),Y(c,d)[,e]) / Q(P(..),e) shapes over all node kinds x negate, plus "
+    "hypothesis cross-product trees (And over >=2 multi-solution children) and hypothesis trees over <=4 distinct leaves drawn from category/package/version/slot/USE/repo leaves "
     "(+value-level subtrees, Negate wrappers, empty nodes); non-trivial = (>=2 levels and >=1 negation) or a "
     "JustOne/AtMostOne node below an And/Or; distinct = canonical JSON of the tree spec"
 )
@@ -134,6 +135,21 @@ def node_tag(spec):
     return "leaf-" + k
 
 
+def _nsol(s):
+    """number of DNF solutions a correct expansion of the node has (1 for opaque nodes)"""
+    k = s["k"]
+    if k == "and" and not s.get("neg"):
+        n = 1
+        for c in s["c"]:
+            n *= _nsol(c)
+        return n
+    if k == "or" and not s.get("neg"):
+        return sum(_nsol(c) for c in s["c"]) if s["c"] else 1
+    if k == "and" and s.get("neg"):
+        return max(len(s["c"]), 1)
+    return 1
+
+
 def classify(spec):
     cl = set()
     nontrivial = False
@@ -161,6 +177,11 @@ def classify(spec):
             cl.add("always_leaf")
         elif k == "ver":
             cl.add("version_leaf")
+    for n, _d, _p in G.walk(spec):
+        if n["k"] == "and" and not n.get("neg") and n.get("nt") != "values" and \
+                sum(1 for c in n["c"] if _nsol(c) >= 2) >= 2:
+            cl.add("and_with_multiple_multisolution_children")
+            break
     d = G.pkg_depth(spec)
     cl.add(f"depth{min(d, 5)}")
     if d >= 2 and negs >= 1:
@@ -267,26 +288,78 @@ def check_tree(ctx, spec, record=True):
     return r
 
 
+# ---- bounded-exhaustive catalogue of small shapes over independent leaves (cheap, runs first) -------------
+_LA = {"k": "dep", "cls": "CategoryDep", "s": "app-a", "neg": False}
+_LB = {"k": "dep", "cls": "PackageDep", "s": "foo", "neg": False}
+_LC = {"k": "dep", "cls": "SlotDep", "s": "0", "neg": False}
+_LD = {"k": "dep", "cls": "RepositoryDep", "s": "r1", "neg": False}
+_LE = {"k": "ver", "op": ">=", "ver": "2", "rev": None, "neg": False}
+_K8 = [(k, neg) for k in G.BOOL_KINDS for neg in (False, True)]
+_K6 = [("and", False), ("or", False), ("and", True), ("or", True), ("one", False), ("most", False)]
+_K4 = [("and", False), ("or", False), ("and", True), ("or", True)]
+
+
+def _n(kn, *kids):
+    return {"k": kn[0], "neg": kn[1], "nt": None, "c": list(kids)}
+
+
+def catalogue():
+    """every P(X(a,b), Y(c,d)) and P(X(a,b), Y(c,d), e) for all 8 node kinds, and Q(P(X(a,b), Y(c,d)), e);
+    And/Or parents first (the normal-form code paths), a..e read five different attributes"""
+    out = []
+    order = sorted(_K8, key=lambda kn: (kn[0] not in ("and", "or"), kn[1]))
+    for P in order:
+        for X in _K8:
+            for Y in _K8:
+                out.append(_n(P, _n(X, _LA, _LB), _n(Y, _LC, _LD)))
+    for P in order:
+        for X in _K6:
+            for Y in _K6:
+                out.append(_n(P, _n(X, _LA, _LB), _n(Y, _LC, _LD), _LE))
+                out.append(_n(P, _LE, _n(X, _LA, _LB), _n(Y, _LC, _LD)))
+    for Q in order:
+        for P in _K4:
+            for X in _K6:
+                for Y in _K6:
+                    out.append(_n(Q, _n(P, _n(X, _LA, _LB), _n(Y, _LC, _LD)), _LE))
+    return out
+
+
 def plan(tier, seed):
+    nsl = 4
+    tasks = [{"task": "catalogue", "slice": i, "nslices": nsl} for i in range(nsl)]
     if tier == "quick":
-        return [{"task": "trees", "examples": 1400} for _ in range(16)]
-    return [{"task": "trees", "examples": 20000} for _ in range(32)]
+        return tasks + [{"task": "trees", "examples": 1200} for _ in range(16)]
+    return tasks + [{"task": "trees", "examples": 20000} for _ in range(32)]
 
 
 def run_task(ctx, task, **kw):
+    if task == "catalogue":
+        done = True
+        for i, spec in enumerate(catalogue()):
+            if i % kw["nslices"] != kw["slice"]:
+                continue
+            if i % 64 < kw["nslices"] and ctx.out_of_time():
+                done = False
+                break
+            check_tree(ctx, spec)
+        ctx.note("exhaustive_catalogue", done)
+        return
     if task != "trees":
         raise core.HarnessError(f"unknown task {task}")
     n = kw["examples"]
-    # general trees + smaller trees with more empties / xor nodes, interleaved in rounds
-    gens = [(G.tree(PROFILE, empty_rate=30), 0.8),
-            (G.tree(PROFILE, max_depth=3, max_leaves=5, empty_rate=9, kinds=("and", "or", "one", "most")), 0.2)]
-    rounds = max(1, n // 350)
+    # cross-product trees (And over several multi-solution children) first, then general trees and smaller
+    # trees with more empties / xor nodes; interleaved in rounds of small chunks so the budget guard reacts
+    gens = [(G.cross(PROFILE), 0.25),
+            (G.tree(PROFILE, empty_rate=30), 0.6),
+            (G.tree(PROFILE, max_depth=3, max_leaves=5, empty_rate=9, kinds=("and", "or", "one", "most")), 0.15)]
+    rounds = max(1, n // 300)
     for rnd in range(rounds):
         for gi, (strat, share) in enumerate(gens):
             if ctx.out_of_time():
                 return
             k = max(1, int(n * share / rounds))
-            core.hyp_run(ctx, strat, lambda s: check_tree(ctx, s), k, chunk=70, seed_salt=rnd * 2 + gi)
+            core.hyp_run(ctx, strat, lambda s: check_tree(ctx, s), k, chunk=30, seed_salt=rnd * 3 + gi)
     ctx.note("universe_max", 3 * 3 * 3 * 2 * 4 * 2)
 
 
